@@ -58,6 +58,14 @@ pub fn parse_bytes(s: &str) -> Result<Vec<u8>, ParseSequenceError> {
                 }
                 Some((idx, c2)) => {
                     let byte: u8 = match c2 {
+                        'a' => 0x07,
+                        'b' => 0x08,
+                        'v' => 0x0B,
+                        'f' => 0x0C,
+                        'n' => b'\n',
+                        'r' => b'\r',
+                        't' => b'\t',
+                        '\\' | '?' | '\'' | '"' | '`' => c2 as u8,
                         'x' | 'X' => {
                             let hex: String = [
                                 chars
